@@ -293,3 +293,22 @@ M("c11.find-match-leaks-generic-into-type-list", "C11", SR, "            candida
 M("c11.default-matcher-not-reset-after-module", "C11", RU, "                    exec_file(os.path.join(path, name), step_module_globals)\n                use_default_step_matcher()", "                    exec_file(os.path.join(path, name), step_module_globals)")
 M("c11.regex-missing-group-dropped", "C11", MAT, "        for index, group in enumerate(matched.groups()):\n            index += 1\n            name = group_index.get(index, None)", "        for index, group in enumerate(matched.groups()):\n            index += 1\n            if matched.start(index) < 0:\n                continue\n            name = group_index.get(index, None)")
 M("c11.same-definition-check-uses-raw-text", "C11", SR, "            if self.same_step_definition(existing, new_step_matcher.pattern,\n                                         step_location):", "            if self.same_step_definition(existing, step_text, step_location):")
+
+# ---- C13 -------------------------------------------------------------------
+M("c13.cleanups-not-reversed", "C13", RUN, "        for cleanup_func in reversed(cleanup_funcs):", "        for cleanup_func in list(cleanup_funcs):")
+M("c13.pop-without-finally", "C13", RUN, "        try:\n            self._do_cleanups()\n        finally:\n            # -- ENSURE: Layer is removed even if cleanup-errors occur.\n            self._stack.pop(0)",
+  "        self._do_cleanups()\n        self._stack.pop(0)")
+M("c13.getattr-searches-two-frames", "C13", RUN, "        for frame in self._stack:\n            if attr in frame:\n                return frame[attr]\n        msg = \"'{0}' object has no attribute '{1}'\"",
+  "        for frame in self._stack[:2]:\n            if attr in frame:\n                return frame[attr]\n        msg = \"'{0}' object has no attribute '{1}'\"")
+M("c13.delattr-from-any-frame", "C13", RUN, "        frame = self._stack[0]\n        if attr in frame:\n            del frame[attr]", "        frame = next((f for f in self._stack if attr in f), self._stack[0])\n        if attr in frame:\n            del frame[attr]")
+M("c13.add-cleanup-layer-ignored", "C13", RUN, "        if layer_name:\n            current_frame = self._select_stack_frame_by_layer(layer_name)", "        if layer_name:\n            self._select_stack_frame_by_layer(layer_name)")
+M("c13.fixture-cleanup-registered-after-setup", "C13", "behave/fixture.py", "        context.add_cleanup(cleanup_fixture)\n        setup_result = next(func_it) # SETUP-FIXTURE PART (may raise error)",
+  "        setup_result = next(func_it) # SETUP-FIXTURE PART (may raise error)\n        context.add_cleanup(cleanup_fixture)")
+M("c13.execute-steps-restore-removed", "C13", RUN, "            self.table = original_table\n            self.text = original_text", "            pass")
+M("c13.cleanup-stops-at-first-error", "C13", RUN, "                cleanup_errors.append(sys.exc_info())\n                on_cleanup_error(context, cleanup_func, e)", "                cleanup_errors.append(sys.exc_info())\n                on_cleanup_error(context, cleanup_func, e)\n                break")
+M("c13.contains-only-current-frame", "C13", RUN, "        for frame in self._stack:\n            if attr in frame:\n                return True\n        return False", "        return attr in self._stack[0] or attr in self._root")
+M("c13.scenario-cleanup-error-not-error-status", "C13", MOD, "        except Exception:               # pylint: disable=broad-except\n            self.set_status(Status.error)\n            failed = True", "        except Exception:               # pylint: disable=broad-except\n            failed = True")
+M("c13.mode-not-restored-on-error", "C13", RUN, "    try:\n        context._mode = mode\n        yield\n    finally:\n        # -- RESTORE: Initial current_mode\n        #    Even if an AssertionError/Exception is raised.\n        context._mode = current_mode",
+  "    context._mode = mode\n    yield\n    context._mode = current_mode")
+M("c13.use-or-assign-overwrites", "C13", RUN, "        if name not in self:\n            # -- CASE: New, missing param -- Assign parameter-value.\n            setattr(self, name, value)\n            return value", "        if True:\n            setattr(self, name, value)\n            return value")
+M("c13.testrun-cleanups-not-run", "C13", RUN, "            self.context._do_cleanups()   # Without dropping the last context layer.", "            pass")
